@@ -407,6 +407,9 @@ func (w *world) do(op map[string]J) (res map[string]J) {
 			runErr = eng.ExecuteWithContext(pc, f.dctx, kb)
 		}()
 		res["out"] = classify(runErr, true)
+		if runErr != nil {
+			res["msg"] = runErr.Error()
+		}
 		res["trace"] = main.events
 		res["pollAt"] = main.pollAt
 		res["polls"] = pc.polls
